@@ -153,6 +153,10 @@ package executor
 //@   requires e != nil
 //@   safe
 //@   ensures calls(Exec) == 1
+// whatever Exec produced - also the errors-only response of a failed subscription set-up - is handed out through
+// the wrapper that runs the response interceptors (the 2nd function literal of DispatchOperation), never as a raw handler
+//@   ensures !panicked ==> litOrd(res0) == 2
+//@   replay responseInterceptor.go.tmpl for :ensures:#2@
 //@ func (*Executor).DispatchOperation$2 [C03]
 //@   requires e != nil
 //@   safe
